@@ -94,6 +94,9 @@ type apCtx struct {
 	memo  map[ssa.Value]string
 	sums  map[*ssa.Function]*redSummary
 	inpro map[*ssa.Function]bool
+	// scratch of foreignCondition: the sibling container an emptiness guard tested
+	lastSibling      string
+	lastSkipNonEmpty bool
 }
 
 // redSummary: paths (rooted at "P<i>" for in-place redaction through a pointer parameter, or "R" for the
@@ -343,6 +346,19 @@ func (a *apCtx) compute() *redSummary {
 			}
 		})
 	}
+	// 2b. unconditional coverage: the redaction of a path may be skipped only when a container on that very path is
+	// empty/nil (or by loop bounds); a skip that depends on other state (another field being set, a flag) leaks.
+	for p, at := range paths {
+		if strings.HasPrefix(p, "L:") || strings.HasPrefix(p, "M:") {
+			continue
+		}
+		for _, g := range guardsAt(at.Block()) {
+			a.lastSibling = ""
+			if desc := a.foreignCondition(g, p); desc != "" {
+				a.c.condIssues = append(a.c.condIssues, condIssue{fn: fn, at: at, path: p, desc: desc, sibling: a.lastSibling, skipNonEmpty: a.lastSkipNonEmpty})
+			}
+		}
+	}
 	// 3. result: returned value
 	out := &redSummary{paths: map[string]bool{}}
 	for _, in := range instrsWhere(fn, isReturn) {
@@ -366,6 +382,179 @@ func (a *apCtx) compute() *redSummary {
 		}
 	}
 	return out
+}
+
+type condIssue struct {
+	fn   *ssa.Function
+	at   ssa.Instruction
+	path string
+	desc string
+	// for emptiness tests of a sibling container: the tested path and whether the skip happens when it is non-empty
+	sibling      string
+	skipNonEmpty bool
+}
+
+// marshalSuppresses: the redaction of field F is skipped when the sibling container S is non-empty, and the value type's
+// own MarshalJSON, under exactly that condition (and no other), overwrites F with nil or with S itself before encoding -
+// so the unredacted content of F is never emitted. Returns a description, or "" when not established.
+func marshalSuppresses(c *Ctx, ci condIssue) string {
+	if ci.sibling == "" || !ci.skipNonEmpty {
+		return ""
+	}
+	last := func(p string) string {
+		p = strings.TrimSuffix(p, "[*]")
+		if i := strings.LastIndex(p, "."); i >= 0 {
+			return p[i+1:]
+		}
+		return p
+	}
+	F, S := last(ci.path), last(ci.sibling)
+	tp := c.TypesPkg("pkg/config/v2")
+	if tp == nil {
+		return ""
+	}
+	for _, name := range tp.Scope().Names() {
+		tn, ok := tp.Scope().Lookup(name).(*types.TypeName)
+		if !ok {
+			continue
+		}
+		named, ok := tn.Type().(*types.Named)
+		if !ok {
+			continue
+		}
+		if _, isStruct := named.Underlying().(*types.Struct); !isStruct {
+			continue
+		}
+		fn := c.methodOf(named, "MarshalJSON")
+		if fn == nil || fn.Blocks == nil || len(fn.Params) == 0 {
+			continue
+		}
+		var recvCopy *ssa.Alloc
+		for _, r := range refs(fn.Params[0]) {
+			if st, ok := r.(*ssa.Store); ok && st.Val == ssa.Value(fn.Params[0]) {
+				recvCopy, _ = st.Addr.(*ssa.Alloc)
+			}
+		}
+		if recvCopy == nil {
+			continue
+		}
+		rooted := func(addr ssa.Value) bool { return rootOf(addr) == ssa.Value(recvCopy) }
+		found := false
+		forEachInstr(fn, false, func(_ *ssa.Function, in ssa.Instruction) {
+			st, ok := in.(*ssa.Store)
+			if !ok {
+				return
+			}
+			_, f, _, okf := fieldAddrInfo(st.Addr)
+			if !okf || f != F || !rooted(st.Addr) {
+				return
+			}
+			// value: nil, or the sibling itself
+			okVal := isNilConst(st.Val)
+			if _, f2, _, ok2 := loadedField(st.Val); ok2 && f2 == S {
+				okVal = true
+			}
+			if !okVal {
+				return
+			}
+			gs := guardsAt(st.Block())
+			if len(gs) != 1 || !gs[0].True {
+				return
+			}
+			bo, ok := gs[0].Cond.(*ssa.BinOp)
+			if !ok || bo.Op != token.GTR {
+				return
+			}
+			if n, isC := constInt(bo.Y); !isC || n != 0 {
+				return
+			}
+			if call, ok := bo.X.(*ssa.Call); ok && methodName(call.Common()) == "len" {
+				if _, f3, _, ok3 := loadedField(call.Common().Args[0]); ok3 && f3 == S {
+					found = true
+				}
+			}
+		})
+		if found {
+			return fmt.Sprintf("%s.MarshalJSON overwrites %s when len(%s) > 0", name, F, S)
+		}
+	}
+	return ""
+}
+
+// foreignCondition: "" when guard g is harmless for the redaction of path p: a loop bound, a test without access path
+// (errors, type switches), or an emptiness/nil test of a container lying on p. Otherwise a description of the condition.
+func (a *apCtx) foreignCondition(g Guard, p string) string {
+	onPath := func(q string) bool {
+		return q != "" && (q == p || strings.HasPrefix(p, q+".") || strings.HasPrefix(p, q+"["))
+	}
+	related := func(q string) bool {
+		return onPath(q) || (q != "" && (strings.HasPrefix(q, p+".") || strings.HasPrefix(q, p+"[")))
+	}
+	switch x := g.Cond.(type) {
+	case *ssa.BinOp:
+		// range-loop bound: (i+1) < len(s)
+		if _, isLoop := rangeLoopSlice(x.X); isLoop {
+			return ""
+		}
+		var tested ssa.Value
+		emptiness := false
+		if call, ok := x.X.(*ssa.Call); ok && methodName(call.Common()) == "len" {
+			if n, isC := constInt(x.Y); isC && n == 0 {
+				tested, emptiness = call.Common().Args[0], true
+			} else {
+				tested = call.Common().Args[0]
+			}
+		} else if isNilConst(x.Y) {
+			tested, emptiness = x.X, true
+		} else {
+			// comparison of two values: look at both sides
+			for _, side := range []ssa.Value{x.X, x.Y} {
+				if q := a.ap(side); q != "" && !strings.HasPrefix(q, "L:") && !strings.HasPrefix(q, "M:") {
+					return fmt.Sprintf("a comparison involving %s", q)
+				}
+			}
+			return ""
+		}
+		q := a.ap(tested)
+		if q == "" || strings.HasPrefix(q, "M:") {
+			return ""
+		}
+		if strings.HasPrefix(q, "L:") {
+			return ""
+		}
+		if emptiness && onPath(q) {
+			return ""
+		}
+		if emptiness && !related(q) {
+			a.lastSibling, a.lastSkipNonEmpty = q, skipWhenNonEmpty(x, g.True)
+			return fmt.Sprintf("whether %s is empty/nil (%v edge)", q, g.True)
+		}
+		if !emptiness {
+			return fmt.Sprintf("the size of %s", q)
+		}
+		return fmt.Sprintf("the content of %s", q)
+	case *ssa.UnOp:
+		c := x
+		if x.Op == token.NOT {
+			if in, ok := x.X.(*ssa.UnOp); ok {
+				c = in
+			} else if q := a.ap(x.X); q != "" && !strings.HasPrefix(q, "L:") {
+				return fmt.Sprintf("the flag %s", q)
+			} else {
+				return ""
+			}
+		}
+		if c.Op == token.MUL {
+			if q := a.ap(c); q != "" && !strings.HasPrefix(q, "L:") && !strings.HasPrefix(q, "M:") {
+				return fmt.Sprintf("the flag %s", q)
+			}
+		}
+	case *ssa.Field:
+		if q := a.ap(x); q != "" && !strings.HasPrefix(q, "L:") {
+			return fmt.Sprintf("the flag %s", q)
+		}
+	}
+	return ""
 }
 
 // apChecked: access path of an address argument, requiring that every [*] step indexes with a full range loop.
@@ -425,7 +614,9 @@ func runC20(c *Ctx) {
 		c.Unresolved("C20.R1", "configmanager.DumpJSON")
 	} else {
 		n := 0
-		for _, cs := range callsIn(dump, false, func(cc *ssa.CallCommon) bool { return calleeName(cc) == "encoding/json.Marshal" || calleeName(cc) == "encoding/json.MarshalIndent" }) {
+		for _, cs := range callsIn(dump, false, func(cc *ssa.CallCommon) bool {
+			return calleeName(cc) == "encoding/json.Marshal" || calleeName(cc) == "encoding/json.MarshalIndent"
+		}) {
 			n++
 			vis = append(vis, visible{"DumpJSON:marshal", stripIface(cs.Instr.Common().Args[0]), cs.Instr.Pos()})
 		}
@@ -518,6 +709,23 @@ func runC20(c *Ctx) {
 		for _, r := range tw.recur {
 			c.Fail("C20.R1", "pkg/configmanager."+vv.key+":recursive"+r, vv.pos, "recursive type on a path that may hold a TLSConfig: "+r)
 		}
+	}
+	// unconditional coverage (collected while the redaction summaries were computed)
+	seenIssue := map[string]bool{}
+	sort.Slice(c.condIssues, func(i, j int) bool {
+		return funcKey(c.condIssues[i].fn)+c.condIssues[i].path+c.condIssues[i].desc < funcKey(c.condIssues[j].fn)+c.condIssues[j].path+c.condIssues[j].desc
+	})
+	for _, ci := range c.condIssues {
+		key := fmt.Sprintf("%s:conditional-redaction:%s", funcKey(ci.fn), ci.path)
+		if seenIssue[key] {
+			continue
+		}
+		seenIssue[key] = true
+		if why := marshalSuppresses(c, ci); why != "" {
+			c.Pass("C20.R1", key, nearestPos(ci.at), "skipped exactly when the marshaler does not emit the field: "+why)
+			continue
+		}
+		c.Fail("C20.R1", key, nearestPos(ci.at), fmt.Sprintf("the redaction of %s in %s can be skipped depending on %s: a configuration in which that condition holds is dumped with its private key", ci.path, ci.fn.Name(), ci.desc))
 	}
 	var ol []string
 	for o := range allOpaque {
@@ -1078,7 +1286,9 @@ func c20WhoMayCall(c *Ctx) {
 		c.Check("C20.R4", "pkg/configmanager.getMOSNConfig:callers", g.Pos(), bad == 0, "unredacted accessor has no caller", "the unredacted accessor getMOSNConfig is called from the package")
 	}
 	if d := c.F(pkg, "DumpJSON"); d != nil {
-		callsRed := len(callsIn(d, false, func(cc *ssa.CallCommon) bool { return cc.StaticCallee() != nil && cc.StaticCallee().Name() == "redactedCopy" })) == 1
+		callsRed := len(callsIn(d, false, func(cc *ssa.CallCommon) bool {
+			return cc.StaticCallee() != nil && cc.StaticCallee().Name() == "redactedCopy"
+		})) == 1
 		c.Check("C20.R4", "pkg/configmanager.DumpJSON:uses-redactedCopy", d.Pos(), callsRed, "marshals redactedCopy(conf)", "DumpJSON does not go through redactedCopy")
 	}
 }
@@ -1166,4 +1376,21 @@ func sameAddrIdx(a, b ssa.Value) bool {
 		return ok && x.Op == token.MUL && y.Op == token.MUL && sameAddrIdx(x.X, y.X)
 	}
 	return false
+}
+
+// skipWhenNonEmpty: the guarded code runs on edge `taken` of the emptiness test; the redaction is skipped on the other
+// edge. Returns true when that other edge is the "container is non-empty" edge.
+func skipWhenNonEmpty(bo *ssa.BinOp, taken bool) bool {
+	// which edge means non-empty?
+	nonEmptyOnTrue := false
+	switch bo.Op {
+	case token.GTR, token.NEQ:
+		nonEmptyOnTrue = true
+	case token.EQL, token.LEQ:
+		nonEmptyOnTrue = false
+	default:
+		return false
+	}
+	// redaction executes on `taken`; it is skipped on !taken
+	return nonEmptyOnTrue == !taken
 }
